@@ -186,9 +186,15 @@ class remaining_seconds:
         return sgn_mul(self._seconds, sym.fmod(absv(self._seconds), 60))
 
 
+transparent("pendulum.duration.Duration.invert", why="lazy cache: on objects whose _invert is already set (Interval) the real body is re-executed")
+
+
 @contract("pendulum.duration.Duration.invert", props=["C09", "C18"])
 class invert:
     args = _self
+
+    def applies(self):
+        return isinstance(self, Obj) and "_invert" not in self.f
 
     def value(self):
         return lt(self.us, 0)
